@@ -279,6 +279,76 @@ func runC18(c *Ctx) {
 		c.ob("C18-R1", fmtPkg+"#keyword:"+k+":inverse", p1, s2k[k2s[k]] == k, "keywordToSymbol["+k+"]="+k2s[k]+" but symbolToKeyword["+k2s[k]+"]="+s2k[k2s[k]])
 	}
 
+	c.rule("C18-R10", "SIB: the text of a string literal is the same whichever lexer reads it: the escape switch of ExpandedLexer.readString has an arm for exactly the escape characters Lexer.readString has (\\n \\t \\r \\\" \\' \\\\ \\0 \\a \\b \\f \\v \\x \\u), and the two treat an unknown escape alike (both refuse it, or both keep the character) - expansion leaves string literals untouched, so a literal \"caf\\u00e9\" or \"\\x41\" must not read as cafu00e9 / x41 from the expanded file")
+	{
+		type escTab struct {
+			keys    map[string]bool
+			refuses bool // the default arm returns (an ILLEGAL token)
+			pos     token.Pos
+			found   bool
+		}
+		esc := func(name string) escTab {
+			t := escTab{keys: map[string]bool{}}
+			d := c.decl(parserPkg, name)
+			if d == nil {
+				return t
+			}
+			p := c.pkg(parserPkg)
+			ast.Inspect(d, func(n ast.Node) bool {
+				sw, ok := n.(*ast.SwitchStmt)
+				if !ok || sw.Tag == nil || t.found {
+					return true
+				}
+				keys := map[string]bool{}
+				refuses, hasDefault := false, false
+				for _, st := range sw.Body.List {
+					cc := st.(*ast.CaseClause)
+					if cc.List == nil {
+						hasDefault = true
+						for _, b := range cc.Body {
+							if _, isRet := b.(*ast.ReturnStmt); isRet {
+								refuses = true
+							}
+						}
+					}
+					for _, e := range cc.List {
+						if tv, ok := p.TypesInfo.Types[e]; ok && tv.Value != nil && tv.Value.Kind() == constant.Int {
+							if v, ok := constant.Int64Val(tv.Value); ok && v > 0 && v < 128 {
+								keys[string(rune(v))] = true
+							}
+						}
+					}
+				}
+				if keys["n"] && keys["t"] && keys["\\"] {
+					t.keys, t.refuses, t.pos, t.found = keys, refuses && hasDefault, sw.Pos(), true
+				}
+				return true
+			})
+			return t
+		}
+		ct, xt := esc("Lexer.readString"), esc("ExpandedLexer.readString")
+		if !ct.found || !xt.found {
+			c.undecided("C18-R10: escape switch not found in %s", map[bool]string{true: "ExpandedLexer.readString", false: "Lexer.readString"}[ct.found])
+		} else {
+			all := map[string]bool{}
+			for k := range ct.keys {
+				all[k] = true
+			}
+			for k := range xt.keys {
+				all[k] = true
+			}
+			var ks []string
+			for k := range all {
+				ks = append(ks, k)
+			}
+			sort.Strings(ks)
+			for _, k := range ks {
+				c.ob("C18-R10", parserPkg+".readString#escape:"+strconv.Quote(k)+":in-both-lexers", xt.pos, ct.keys[k] && xt.keys[k], "the escape \\"+k+" is decoded by one lexer only (compact: "+boolStr(ct.keys[k])+", expanded: "+boolStr(xt.keys[k])+"): a string literal containing it reads differently from the expanded file than from the compact one")
+			}
+			c.ob("C18-R10", parserPkg+".readString#unknown-escape-handled-alike", xt.pos, ct.refuses == xt.refuses, "one lexer refuses an unknown escape sequence and the other keeps the character: the expanded form of a program parses where the compact one does not (or the other way round)")
+		}
+	}
+
 	c.rule("C18-R2", "TBL: apart from the expanded keywords, the keyword arms of ExpandedLexer.readIdentifier and Lexer.readIdentifier have the same key set and assign the same token kinds")
 	all := map[string]bool{}
 	for k := range xid {
